@@ -195,7 +195,8 @@ def lean_check(prop, tier="quick"):
             res["errors"].append("extract failed: %s: %s" % (type(e).__name__, e))
             res["build_s"] = time.time() - t0
             return res
-        targets = [prop.LEAN_MODULE] + ([prop.DRIVER] if prop.DRIVER else [])
+        modules = [prop.LEAN_MODULE] + list(getattr(prop, "EXTRA_MODULES", []))
+        targets = modules + ([prop.DRIVER] if prop.DRIVER else [])
         p = subprocess.run(["lake", "build"] + targets, cwd=LEAN_DIR, capture_output=True, text=True)
         out = p.stdout + p.stderr
         if p.returncode != 0:
@@ -204,9 +205,13 @@ def lean_check(prop, tier="quick"):
             res["build_s"] = time.time() - t0
             res["build_log"] = out[-4000:]
             return res
-        thms, examples = property_theorems(prop.LEAN_MODULE)
+        thms, examples = [], 0
+        for m_ in modules:
+            t_, e_ = property_theorems(m_)
+            thms += t_
+            examples += e_
         res["theorems"], res["examples"] = thms, examples
-        audit = "import %s\n" % prop.LEAN_MODULE + "".join("#print axioms %s\n" % t for t in thms)
+        audit = "".join("import %s\n" % m_ for m_ in modules) + "".join("#print axioms %s\n" % t for t in thms)
         afn = os.path.join(LEAN_DIR, ".audit_%s_%d.lean" % (prop.ID, os.getpid()))
         with open(afn, "w") as f:
             f.write(audit)
@@ -228,7 +233,7 @@ def lean_check(prop, tier="quick"):
                 res["errors"].append("%s depends on %s" % (t, bad))
     if p.returncode != 0:
         res["errors"].append("audit failed: " + out[-500:])
-    files = list(lean_sources_for(prop.LEAN_MODULE).values())
+    files = [f for m_ in [prop.LEAN_MODULE] + list(getattr(prop, "EXTRA_MODULES", [])) for f in lean_sources_for(m_).values()]
     if prop.DRIVER:
         files += list(lean_sources_for(driver_root(prop.DRIVER)).values())
     hits = forbidden_tokens(sorted(set(files)))
@@ -238,7 +243,7 @@ def lean_check(prop, tier="quick"):
     res["leanchecker"] = None
     if tier == "thorough" and not res["errors"]:
         # independent re-check of the compiled .olean files of every project module the property imports
-        mods = sorted(m for m in lean_sources_for(prop.LEAN_MODULE))
+        mods = sorted({m for m_ in [prop.LEAN_MODULE] + list(getattr(prop, "EXTRA_MODULES", [])) for m in lean_sources_for(m_)})
         with BuildLock():
             p = subprocess.run(["lake", "env", "leanchecker"] + mods, cwd=LEAN_DIR, capture_output=True, text=True)
         res["leanchecker"] = {"modules": len(mods), "exit": p.returncode}
